@@ -126,8 +126,7 @@ func (Transport) RoundTrip(req *http.Request) (*http.Response, error) {
 		fromName = from.Name
 	}
 	address := req.URL.Host
-	k := w.Counter("http:" + fromName + ">" + address)
-	key := fmt.Sprintf("http:%s>%s#%d", fromName, address, k)
+	key := fmt.Sprintf("http:%s>%s#%s", fromName, address, w.GSeq(g, "http>"+address))
 	info := &HTTPReqInfo{Key: key, From: from, Addr: address, Method: req.Method, URL: req.URL.String(), Body: body}
 	w.mu.Lock()
 	srv := w.https[address]
